@@ -96,7 +96,8 @@ class LibFn(FnContract):
     """Contract of one SCRIPT_FUNCTIONS entry."""
     frame = 'havoc'
 
-    def __init__(self, script_name, qual, model_name, fail, sem, maxargs=None, inline=(), notes=''):
+    def __init__(self, script_name, qual, model_name, fail, sem, maxargs=None, inline=(), notes='', facts=None):
+        self.facts = facts               # facts(K) -> arithmetic facts about uninterpreted functions (trusted, listed)
         self.script_name = script_name
         self.qual = qual
         self.model_name = model_name     # e.g. '_ARRAY_GET_ARGS' (None: no argument model)
@@ -106,6 +107,9 @@ class LibFn(FnContract):
         self.inline = tuple(inline)
         self.notes = notes
         self._model = None
+
+    def axioms(self, K):
+        return self.facts(K) if self.facts is not None else []
 
     def model(self, ip):
         if self.model_name is None:
@@ -146,8 +150,10 @@ class LibFn(FnContract):
         argsref, n, raw = arg_terms(K, maxn + 1)
         i = z3.Int('i!own')
         h = K.heap
+        from pyvc.core import float_in_range
         return [('args-not-self-referential',
-                 z3.ForAll([i], z3.Implies(z3.And(i >= 0, i < n), h.lget(argsref, i) != VList(argsref))))]
+                 z3.ForAll([i], z3.Implies(z3.And(i >= 0, i < n), h.lget(argsref, i) != VList(argsref))))] + \
+               [(f'float-arg{ix}-is-finite', float_in_range(a)) for ix, a in enumerate(raw)]
 
     def post(self, K, out):
         sp, valid = self.view(K)
@@ -185,6 +191,10 @@ class LibFn(FnContract):
                 obs.append((f'effect{ix}', sp_.dict_same(h1, hexp, ref, order=order)))
                 ex_d.append(ref)
         obs.append(('frame', sp_.frame_same(h0, h1, bound, ex_l, ex_d)))
+        if 'guard' in r:
+            # the clause is claimed for operands inside the stated magnitude guard only (IEEE range edges are
+            # outside the logic)
+            obs = [(label, z3.Implies(r['guard'], f)) for label, f in obs]
         return obs
 
     def _fresh_dict(self, h1, res, bound, ret):
@@ -217,3 +227,74 @@ class LibFn(FnContract):
                 return fail == VNone
             return z3.BoolVal(False)
         raise NotImplementedError('exception of unknown class in a library function')
+
+
+# ---------------------------------------------------------------------------------------------
+# C12: the specification itself does not depend on the int/float spelling of integral numbers
+# ---------------------------------------------------------------------------------------------
+
+def numeq(a, b):
+    """a and b are the same value up to the spelling of an integral number below 1e15 (the property's range)"""
+    lim = z3.RealVal(10 ** 15)
+    return z3.Or(a == b, z3.And(sp_.is_number(a), sp_.is_number(b), sp_.num(a) == sp_.num(b),
+                                z3.IsInt(sp_.num(a)), sp_.num(a) < lim, sp_.num(a) > -lim))
+
+
+def spelling_lemmas(h, pairs):
+    """facts used by the spelling-invariance check: CMP does not see the spelling (proved: CMP.int-float-spelling);
+    value_string prints an integral float like the int (C13; assumed contract on float.__repr__ below 1e16)"""
+    from .value_c import VALUE_STRING
+    H = h.term()
+    out = []
+    for a, b in pairs:
+        out.append(z3.Implies(numeq(a, b), VALUE_STRING(H, a) == VALUE_STRING(H, b)))
+        for c, d in pairs:
+            out.append(z3.Implies(z3.And(numeq(a, b), numeq(c, d)), sp_.CMP(H, a, c) == sp_.CMP(H, b, d)))
+    return out
+
+
+def spelling_invariance_obligations(contract, repo_ip):
+    """[(name, hypotheses, goal)]: two runs of the specification on argument lists that differ only in the spelling
+    (int vs float) of top-level numbers agree on validity, range condition, result (up to spelling) and effects."""
+    model = contract.model(repo_ip)
+    maxn = contract.maxargs if contract.maxargs is not None else (len(model) if model else 0)
+    h = Heap.fresh('_c12')
+    n = z3.Int('n_c12')
+    argsref = z3.Int('args_c12')
+    raw1 = [z3.Const(f'a{i}_c12', V) for i in range(maxn + 1)]
+    raw2 = [z3.Const(f'b{i}_c12', V) for i in range(maxn + 1)]
+    hyp = [n >= 0] + [numeq(x, y) for x, y in zip(raw1, raw2)] + spelling_lemmas(h, list(zip(raw1, raw2)) + [(VNone, VNone)])
+    if model is None:
+        return []
+    v1, vals1, rest1 = model_validity(model, h, n, raw1)
+    v2, vals2, rest2 = model_validity(model, h, n, raw2)
+    if rest1 is not None:
+        return [(f'{contract.script_name}.spec-spelling.validity', hyp, v1 == v2)]
+
+    class _K:
+        pass
+    s1 = Sp(_K(), h, vals1, None, n, argsref, VNone)
+    s2 = Sp(_K(), h, vals2, None, n, argsref, VNone)
+    try:
+        r1, r2 = contract.sem(s1), contract.sem(s2)
+    except Exception as e:   # a semantic clause that needs more context than this harness gives
+        return [(f'{contract.script_name}.spec-spelling.validity', hyp, v1 == v2)]
+    out = [(f'{contract.script_name}.spec-spelling.validity', hyp, v1 == v2)]
+    ok1, ok2 = r1.get('ok', z3.BoolVal(True)), r2.get('ok', z3.BoolVal(True))
+    out.append((f'{contract.script_name}.spec-spelling.range-condition', hyp + [v1], ok1 == ok2))
+    if r1['ret'][0] == 'val' and r2['ret'][0] == 'val':
+        out.append((f'{contract.script_name}.spec-spelling.result', hyp + [v1, ok1], numeq(r1['ret'][1], r2['ret'][1])))
+    elif r1['ret'][0] == 'fresh_list':
+        i = z3.Int('i_c12')
+        out.append((f'{contract.script_name}.spec-spelling.result', hyp + [v1, ok1],
+                    z3.And(r1['ret'][1] == r2['ret'][1],
+                           z3.ForAll([i], z3.Implies(z3.And(i >= 0, i < r1['ret'][1]),
+                                                     numeq(z3.Select(r1['ret'][2], i), z3.Select(r2['ret'][2], i)))))))
+    for ix, (e1, e2) in enumerate(zip(r1.get('effects', []), r2.get('effects', []))):
+        if e1[0] == 'list':
+            i = z3.Int('i_c12e')
+            out.append((f'{contract.script_name}.spec-spelling.effect{ix}', hyp + [v1, ok1],
+                        z3.And(e1[1] == e2[1], e1[2] == e2[2],
+                               z3.ForAll([i], z3.Implies(z3.And(i >= 0, i < e1[2]),
+                                                         numeq(z3.Select(e1[3], i), z3.Select(e2[3], i)))))))
+    return out
